@@ -18,6 +18,7 @@
 
 import bisect
 import collections
+import errno
 import functools
 import inspect
 import io
@@ -4371,6 +4372,14 @@ class PyCdlib:
             # The data on the ISO led the parser astray.
             fp.close()
             raise pycdlibexception.PyCdlibInvalidISO('Failed to parse ISO: %s' % (str(e)))
+        except OSError as e:
+            fp.close()
+            if e.errno != errno.EINVAL:
+                raise
+            # An offset calculated from the data on the ISO is one that the
+            # file cannot seek to (file systems and block devices limit the
+            # offset); it is certainly not inside of the ISO.
+            raise pycdlibexception.PyCdlibInvalidISO('Failed to parse ISO: %s' % (str(e)))
         except Exception:
             fp.close()
             raise
@@ -4400,6 +4409,13 @@ class PyCdlib:
             self._open_fp(fp)
         except (struct.error, IndexError, KeyError, ValueError, ZeroDivisionError, OverflowError) as e:
             # The data on the ISO led the parser astray.
+            raise pycdlibexception.PyCdlibInvalidISO('Failed to parse ISO: %s' % (str(e)))
+        except OSError as e:
+            if e.errno != errno.EINVAL:
+                raise
+            # An offset calculated from the data on the ISO is one that the
+            # file cannot seek to (file systems and block devices limit the
+            # offset); it is certainly not inside of the ISO.
             raise pycdlibexception.PyCdlibInvalidISO('Failed to parse ISO: %s' % (str(e)))
 
     def get_file_from_iso(self, local_path, **kwargs):
